@@ -88,7 +88,7 @@ REGISTRY = {
         "level_text": "differential: the same workspace pushed single-threaded and with N threads, naturally and under forced schedules (hook gates) that enumerate the run-ahead depth of the workers relative to the failing patch and perturb the save phase; tree, .pc, rejects, exit status compared; the realised interleaving is read back from the hook trace",
         "level_note": "trusted: hook gates only delay threads at points where the OS could deschedule them; schedules below file-patch / file-operation granularity are left to the OS; thorough adds ThreadSanitizer",
         "technique": "runtime monitoring: forced-schedule stress (hook gates) + differential oracle + offline trace checker; TSan in thorough",
-        "parts": [K.cli_c06],
+        "parts": [K.cli_c06, K.san_c06],
         "rule": "series with renames / creates / deletes spread over several workers and a failing patch at a random position, threads 2/3/4/8/16, backup modes, -q/default, 10% dry-run; per workspace: one natural traced run, "
                 "then no-run-ahead, full-run-ahead, one intermediate depth and two random-delay schedules derived from the trace. Non-trivial/distinct: (workspace, thread count, realised interleaving signature = sorted run-ahead depth vector + unroll counts).",
         "floor": floors(("parallel-runs-compared", 1000), ("runs-with-run-ahead", 100), ("schedule:no-run-ahead", 50), ("schedule:full-run-ahead", 50), ("run-ahead-file-patches-unrolled", 100)),
@@ -166,7 +166,7 @@ REGISTRY = {
         "level_text": "differential over the option lattice: the same workspace pushed with -q and with a random option set; tree, .pc, rejects and exit status compared",
         "level_note": "trusted: snapshots; stdout/stderr are not compared (the options may change what is printed)",
         "technique": "runtime monitoring: differential oracle across presentation/loader options",
-        "parts": [K.cli_c14],
+        "parts": [K.cli_c14, K.san_c14],
         "rule": "baseline -q vs --mmap / default verbosity / -v / -vv / --color always|never / --stats / -A multiapply and combinations, over random series incl. failing ones, "
                 "zero-length source files, zero-length patch files, empty series, everything already applied, goal naming an applied patch; threads 1/4; backup always/default/never. "
                 "Non-trivial: the run fails or has at least one patch to apply; distinct by (workspace, shape, option set, configuration).",
@@ -176,7 +176,7 @@ REGISTRY = {
         "level_text": "real pushes under strace on a workspace whose files are hard-linked into a twin tree; inode identity, twin content and every syscall on bystander files are checked",
         "level_note": "trusted: strace decoding; os.link twin",
         "technique": "runtime monitoring: hard-link twin invariant + syscall-log audit",
-        "parts": [K.cli_c15],
+        "parts": [K.cli_c15, K.san_c15],
         "rule": "modify/truncate/delete/rename/mode change, failing series (files re-saved after rollback), both loaders, threads 1/4; three bystander files that no patch names. "
                 "Non-trivial: at least one file was replaced.",
         "floor": floors(("files-replaced", 500), ("bystanders-verified", 1000), ("failing-series-(files-resaved-after-rollback)", 50)),
